@@ -35,7 +35,9 @@ run-time observation).
   5. canaries: altered widths / verdicts in copies of real traces must be rejected.
 
 NOTE: run-time values that are Python ints have no width; for them the check requires that the
-static width holds the value.  Negative ints (unary minus / invert of an inferred operand), `/`,
+static width holds the value.  The run-time width of a bitstruct value is nbits of its to_bits(),
+that of a (partially indexed) list field the sum over its elements; bitstruct shapes are read
+from the class's field declarations.  Negative ints (unary minus / invert of an inferred operand), `/`,
 `**`, int operands of concat/zext/sext/trunc/reduce and int << Bits are not generated (they fail
 in simulation for reasons other than bit width).  The block interpreter of c10_obs.py (statement
 by statement exec of the block's own ast on the simulated component) is trusted to evaluate
@@ -358,6 +360,11 @@ def _kclass(nodes, pos):
     n = nodes[pos - 1]
     if n["k"] in ("binop", "shift", "unop") and _is_const(nodes, pos):
         return "folded-constant"
+    if n["k"] == "assign" and ("tc" in nodes[n["t"] - 1] or "tc" in nodes[n["v"] - 1]):
+        # an assignment with a bitstruct / list-field typed side: struct <- bits, bits <- struct, struct <- struct
+        def side(c):
+            return c.get("tc") or ("bits" if c["sx"] else "int")
+        return "assign<%s<-%s>" % (side(nodes[n["t"] - 1]), side(nodes[n["v"] - 1]))
     if "tc" in n and n["k"] in ("sig", "field", "idx", "elem", "tmp", "sinst", "ifexp"):
         # a bitstruct / list-field typed node: the class of its type (struct[list2d], list1d, ...)
         return "%s<%s>" % (n["k"], n["tc"])
@@ -970,7 +977,11 @@ def run(res, tier):
              "TLC model graph (spec->code), random blocks over signals of widths %s with literals up to 2^70 at "
              "2^k / 2^k+-1 boundaries, loops, temporaries, struct fields, if-expressions, constant slices, "
              "(un)equal shifts and casts (10%% deliberately ill-sized choices; a clean family without), "
-             "`t = <literal>`, literal-against-explicit-context, loop and mixed inferred/explicit shape families, and every "
+             "`t = <literal>`, literal-against-explicit-context, loop (ascending and descending) and mixed inferred/explicit "
+             "shape families, the bitstruct family (catalogue + seeded random struct types with nested structs and 1-D/2-D/3-D "
+             "list fields: every access path read / written / copied, struct <-> BitsN with the real and with plausible wrong "
+             "widths, temporaries, constants, instances, sub-component / interface / array ports), every copy / pack / unpack "
+             "state of the RTLIRStructs graph, and every "
              "update block of the repo's "
              "Case* components that type-check; distinct = distinct source text" % L.WIDTHS)
     res.assume("run-time ints have no width: the static width must hold them (statement says 'equals the width of "
@@ -980,3 +991,8 @@ def run(res, tier):
     res.assume("a rejected block is never a violation by itself: the statement does not say which well-sized blocks "
                "must be accepted (counted as blocks_rejected); at least 25% of the generated blocks must be accepted")
     res.assume("explicitness of a node is compared with the rule table as well as its width")
+    res.assume("the run-time width of a bitstruct value is nbits of to_bits(), of a (partially indexed) list field the sum over "
+               "its elements; the shape of a bitstruct type is read from the class's field declarations (__bitstruct_fields__)")
+    res.assume("operators applied to whole structs / list fields, an int assigned to a struct and list @= list raise "
+               "TypeError / AttributeError in simulation (not width errors): such blocks are outside the statement; out-of-range "
+               "indices of list fields raise IndexError (not a width error)")
